@@ -149,6 +149,7 @@ def projection_claim(shape):
             overlap = I.tensor("psi", (1, 1) + shape, "complex")
             amps = I.tensor("amp", (1,) + shape, lo=0, hi=2, nonneg=True)
             ns = types.SimpleNamespace(num_probes=1)
+            ns.estimate_amplitudes = lambda o, corner_centered=False: pb.PtychographyBase.estimate_amplitudes(ns, o, corner_centered)
             out = pty.Ptychography.fourier_projection(ns, amps, overlap)
             F = torch.fft.fft2(out, norm="ortho")
             shifted = torch.fft.fftshift(amps, dim=(-2, -1))
@@ -167,6 +168,7 @@ def projection_detector_claim(shape):
             overlap = I.tensor("psi", (1, 1) + shape, "complex")
             amps = I.tensor("amp", (1,) + shape, lo=0, hi=2, nonneg=True)
             ns = types.SimpleNamespace(num_probes=1)
+            ns.estimate_amplitudes = lambda o, corner_centered=False: pb.PtychographyBase.estimate_amplitudes(ns, o, corner_centered)
             out = pty.Ptychography.fourier_projection(ns, amps, overlap)
             inten = det.DetectorPixelated.forward(None, out)
             return [Rel("detector_sees_the_measured_pattern", inten, amps * amps, tol=1e-9, ntol=1e-4)]
